@@ -524,3 +524,29 @@ Example C14_tx_nonvacuous :
   DevTxModel.tx_session [DevTxModel.TBegin] [7%N] = (DevTxModel.TRefused, [7%N]) /\
   DevTxModel.has_begin [DevTxModel.TCreate 1; DevTxModel.TBad] = false.
 Proof. vm_compute. repeat split. Qed.
+
+(** Round 5 (b): the verdict is recomputed by every Snapshot.  Whatever a first
+    session [s1] did on whatever database (same driver object, same
+    connection), if another writer then adds objects [xs] among which one is
+    not engine bookkeeping, the next sessions decline: no event, the database
+    [d1 ++ xs] and the fault streams as they were.  (Stage scen runs this on
+    one *sqlite.Driver with a second connection as the other writer.) *)
+Theorem C14_verdict_recomputed :
+  forall (s1 : sess) (ss : list sess) (fs : faults) (rs : list bool) (d xs : db),
+  (exists o, In o xs /\ bookkeeping o = false) ->
+  let '(_, d1, fs1, rs1, _) := run_session s1 fs rs d in
+  run_sessions ss fs1 rs1 (d1 ++ xs) =
+    (match ss with [] => OOk | _ => decline_of (d1 ++ xs) end, d1 ++ xs, fs1, rs1, []).
+Proof.
+  intros s1 ss fs rs d xs [o [Hin Hb]].
+  destruct (run_session s1 fs rs d) as [[[[o1 d1] fs1] rs1] es1].
+  apply C14_refuse_untouched. exists o. split; [apply in_or_app; right; exact Hin | exact Hb].
+Qed.
+Print Assumptions C14_verdict_recomputed.
+
+Example C14_verdict_recomputed_nonvacuous :
+  (* first session accepted and handed back empty; a foreign view appears; the second is refused *)
+  run_session (replay_sess false ex_dir) no_faults [] [] = (OOk, [], no_faults, [], snd (run_session (replay_sess false ex_dir) no_faults [] [])) /\
+  run_sessions [replay_sess false ex_dir] no_faults [] ([] ++ [mkObj KView ex_n_us ex_n_us 0 true]) =
+    (ORefused, [mkObj KView ex_n_us ex_n_us 0 true], no_faults, [], []).
+Proof. vm_compute. repeat split. Qed.
